@@ -249,7 +249,7 @@ class CircularEquilibrium(Equilibrium):
                 self._dqdr = func
             else:
                 coef_list = coef_list[1:]
-                exponent_list = range(1, 2 * len(coef_list) + 1, 2)
+                exponent_list = range(2, 2 * len(coef_list) + 1, 2)
 
                 def func(x):
                     return sum(
